@@ -23,7 +23,7 @@ ASSUMPTIONS = [
     "action records are compared by identity / class, not by action_type name (several ActionTypeEnum members are aliases)",
 ]
 MIN_NONTRIVIAL = {"quick": 500, "thorough": 10000}
-REQUIRED_LABELS = ["interval.1", "interval.2", "interval.5", "interval.15", "interval.60", "mix.hourly+minutely", "phase.before.record", "phase.trigger.record", "phase.on.record", "phase.after.record", "update.record", "second_refresh", "rejected.op", "phase.notify.record"]
+REQUIRED_LABELS = ["interval.1", "interval.2", "interval.5", "interval.15", "interval.60", "mix.hourly+minutely", "phase.before.record", "phase.trigger.record", "phase.on.record", "phase.after.record", "update.record", "second_refresh", "rejected.op", "phase.notify.record", "phase.init.record"]
 
 RECORDING = {("uni", "add"), ("uni", "add_price"), ("uni", "remove"), ("uni", "collect"), ("uni", "swap"), ("squni", "add"), ("squni", "add_price"), ("squni", "remove"), ("squni", "collect"), ("squni", "swap"),
              ("aave", "supply"), ("aave", "withdraw"), ("aave", "borrow"), ("aave", "repay"), ("sq", "open"), ("sq", "deposit"), ("opt", "deposit"), ("opt", "withdraw"), ("opt", "buy"), ("opt", "sell"),
@@ -113,6 +113,8 @@ def body(case, ctx: Ctx):
         lo = start
         while lo > 0 and ev[lo - 1][0] == "status":
             lo -= 1
+        if b == 0:
+            lo = 0  # everything before the first before_bar: the two initial refreshes and whatever initialize() did
         end = idx_before[b + 1] if b + 1 < len(idx_before) else len(ev) - 1
         hi = end
         while hi > start and ev[hi - 1][0] == "status" and b + 1 < len(idx_before):
@@ -120,7 +122,7 @@ def body(case, ctx: Ctx):
         seg = ev[lo:hi]
         where = f"bar {b} ({ts})"
         # 1. leading status: every market, this bar's timestamp (bar 0 is refreshed once more before the strategy is initialised)
-        lead = [e for e in ev[lo:start]]
+        lead = [e for e in ev[lo:start] if e[0] == "status"]
         lead_keys = [e[1] for e in lead]
         need = keys * 2 if b == 0 else keys
         ctx.check(sorted(lead_keys) == sorted(need) and all(e[2] == ts for e in lead), "status.lead", lambda: f"{where}: status refreshes before before_bar: {[(e[1], str(e[2])) for e in lead]}", case)
@@ -160,7 +162,7 @@ def body(case, ctx: Ctx):
         n_records += len(recs)
         for i, e in recs:
             ctx.check(pd.Timestamp(e[2]) == ts, "record.timestamp", lambda: f"{where}: {type(e[1]).__name__} stamped {e[2]}", case)
-            ph = max((p for p in pos if pos[p] < i), key=lambda p: pos[p])
+            ph = max((p for p in pos if pos[p] < i), key=lambda p: pos[p], default="init")
             inside_update = any(j < i for j, _ in upd) and i < pos["after"]
             inside_notify = any(j < i for j, e2 in enumerate(seg) if e2[0] == "notify")
             labels.add("update.record" if inside_update else "phase.notify.record" if inside_notify else f"phase.{ph}.record")
